@@ -233,6 +233,28 @@ func ParseContractText(path, pkgPath, text string) (*ContractFile, error) {
 			cf.Pures = append(cf.Pures, pf)
 			curF, curLoop = nil, nil
 			contTarget = nil
+			if strings.TrimSpace(pf.BodyTxt) != "" {
+				// opaque with a definition: uninterpreted in the integer mode, unfolded in the
+				// bit-vector mode
+				contTarget = &pf.BodyTxt
+				p := pf
+				finishers = append(finishers, func() error {
+					body := strings.TrimSpace(p.BodyTxt)
+					if !strings.HasPrefix(body, "{") || !strings.HasSuffix(body, "}") {
+						return fmt.Errorf("%s:%d: pure func %s: body must be { return expr }", path, p.Line, p.Name)
+					}
+					body = strings.TrimSpace(body[1 : len(body)-1])
+					if !strings.HasPrefix(body, "return") {
+						return fmt.Errorf("%s:%d: pure func %s: body must be { return expr }", path, p.Line, p.Name)
+					}
+					e, err := ParseSpecExpr(strings.TrimSpace(body[6:]))
+					if err != nil {
+						return fmt.Errorf("%s:%d: %v", path, p.Line, err)
+					}
+					p.Body = e
+					return nil
+				})
+			}
 		case first == "lemma" && strings.Contains(rest, "("):
 			// mathematical lemma: lemma name(x int, y int) + requires/ensures/pattern
 			k := strings.Index(rest, "(")
